@@ -19,7 +19,8 @@ RULE = ("Hypothesis draws 1-4 scalar recipes, stratified so that each specialise
         "3 points; compile_jacobian, compile_gradient and CompiledExpression.gradient are compared with "
         "forward-mode jets in V order at regular points.  Non-trivial = the returned callable is not the "
         "generic jacobian_fn/symbolic_gradient, or V is permuted / a strict superset."
-        '  Also: parameters are updated after compilation (same callables re-judged) and the same expression objects are compiled against a second variable list.')
+        '  Also: parameters are updated after compilation (same callables re-judged) and the same expression objects are compiled against a second variable list.'
+        ' Also (round 6): the 64-100-element vector family; the list objects handed to compile_jacobian / compile_gradient / CompiledExpression are re-ordered and grown by the caller before the first call; a name-equal earlier model first.')
 BUDGET = {"quick": {"workers": 16, "examples": 700}, "thorough": {"workers": 16, "examples": 6000}}
 ASSUMPTIONS = ["jet rules validated against mpmath at start-up", "singular points are C19's domain, not judged here"]
 MANIFEST = {
